@@ -686,7 +686,7 @@ theorem foldl_inv {P : List H} {auth : H} (evs : List Ev) {s : Engine} (hi : PIn
 
 theorem authFirst_inv (auth : H) (evs : List Ev) (s : Engine) (hg : s.groups = []) (hr : s.routes = [])
     (hn : s.allNoRoute = s.handlers ++ s.noRoute) (h : authFirst auth evs = true) :
-    ∃ P, PInv P auth (evs.foldl Engine.step s) := by
+    ∃ P, P = s.handlers ++ preAuth auth evs ∧ PInv P auth (evs.foldl Engine.step s) := by
   induction evs generalizing s with
   | nil => simp [authFirst] at h
   | cons e es ih =>
@@ -700,7 +700,7 @@ theorem authFirst_inv (auth : H) (evs : List Ev) (s : Engine) (hg : s.groups = [
         simp [Engine.step]
       by_cases ha : hd = auth
       · subst ha
-        refine ⟨s.handlers, ?_⟩
+        refine ⟨s.handlers, by simp [preAuth], ?_⟩
         rw [List.foldl_cons, hstep]
         apply foldl_inv
         exact ⟨List.prefix_refl _, by simp [hg], by simp [hr], rfl⟩
@@ -709,7 +709,13 @@ theorem authFirst_inv (auth : H) (evs : List Ev) (s : Engine) (hg : s.groups = [
           · exact absurd h1 ha
           · exact h1
         rw [List.foldl_cons, hstep]
-        exact ih _ (by simp [hg]) (by simp [hr]) rfl hrest
+        generalize hs' : ({ s with handlers := s.handlers ++ [hd], allNoRoute := (s.handlers ++ [hd]) ++ s.noRoute } : Engine) = s'
+        have e1 : s'.groups = [] := by rw [← hs']; simp [hg]
+        have e2 : s'.routes = [] := by rw [← hs']; simp [hr]
+        have e3 : s'.allNoRoute = s'.handlers ++ s'.noRoute := by rw [← hs']
+        have e4 : s'.handlers = s.handlers ++ [hd] := by rw [← hs']
+        obtain ⟨P, hP, hi⟩ := ih s' e1 e2 e3 hrest
+        exact ⟨P, by rw [hP, e4]; simp [preAuth, ha], hi⟩
     | group _ _ _ => simp [authFirst] at h
     | route _ _ _ _ _ => simp [authFirst] at h
     | noRoute _ => simp [authFirst] at h
@@ -726,7 +732,7 @@ theorem authFirst_of_G (auth : H) (ga : String) (on : String → Bool) (hon : on
         decide_not, Bool.not_eq_true', decide_eq_false_iff_not] at h
       obtain ⟨hrecv, hor⟩ := h
       subst hrecv
-      rcases hor with ⟨rfl, rfl⟩ | ⟨hne, hrest⟩
+      rcases hor with ⟨rfl, rfl⟩ | ⟨⟨hne, _⟩, hrest⟩
       · have : enabled on (⟨.use "engine" hd, [ga]⟩ :: gs) = .use "engine" hd :: enabled on gs := by
           simp [enabled, List.filter_cons, hon]
         rw [this]
@@ -736,6 +742,44 @@ theorem authFirst_of_G (auth : H) (ga : String) (on : String → Bool) (hon : on
             simp only [enabled, List.filter_cons, hk, if_true, List.map_cons]
           rw [this]
           simp [authFirst, ih hrest]
+        · have : enabled on (⟨.use "engine" hd, guards⟩ :: gs) = enabled on gs := by
+            simp only [enabled, List.filter_cons, hk]
+            simp
+          rw [this]
+          exact ih hrest
+    | group _ _ _ => simp [authFirstG] at h
+    | route _ _ _ _ _ => simp [authFirstG] at h
+    | noRoute _ => simp [authFirstG] at h
+
+/-- on a table of shape `authFirstG`, for every valuation of the guards under which the auth
+guard holds, every handler `Use`d ahead of the auth middleware is one of `passiveHandlers` -/
+theorem preAuth_passive_of_G (auth : H) (ga : String) (on : String → Bool) (hon : on ga = true)
+    (gevs : List GEv) (h : authFirstG auth ga gevs = true) :
+    ∀ x ∈ preAuth auth (enabled on gevs), x ∈ passiveHandlers := by
+  induction gevs with
+  | nil => simp [authFirstG] at h
+  | cons g gs ih =>
+    obtain ⟨e, guards⟩ := g
+    cases e with
+    | use recv hd =>
+      simp only [authFirstG, Bool.and_eq_true, decide_eq_true_eq, Bool.or_eq_true, ne_eq,
+        decide_not, Bool.not_eq_true', decide_eq_false_iff_not] at h
+      obtain ⟨hrecv, hor⟩ := h
+      subst hrecv
+      rcases hor with ⟨rfl, rfl⟩ | ⟨⟨hne, hpass⟩, hrest⟩
+      · have : enabled on (⟨.use "engine" hd, [ga]⟩ :: gs) = .use "engine" hd :: enabled on gs := by
+          simp [enabled, List.filter_cons, hon]
+        rw [this]
+        simp [preAuth]
+      · by_cases hk : guards.all on = true
+        · have : enabled on (⟨.use "engine" hd, guards⟩ :: gs) = .use "engine" hd :: enabled on gs := by
+            simp only [enabled, List.filter_cons, hk, if_true, List.map_cons]
+          rw [this]
+          intro x hx
+          simp only [preAuth, hne, if_false, List.mem_cons] at hx
+          rcases hx with rfl | hx
+          · simpa using hpass
+          · exact ih hrest x hx
         · have : enabled on (⟨.use "engine" hd, guards⟩ :: gs) = enabled on gs := by
             simp only [enabled, List.filter_cons, hk]
             simp
